@@ -62,6 +62,8 @@ def check(run):
             free = [(0, 7, j) for j in range(1, 4)]
             wb.cells[free[0]] = ('f', ('bin', '&', ('lit', ''), ('lit', '')))
             wb.cells[free[1]] = ('f', ('call', 'IF', [('lit', False), ('lit', 1), ('lit', '')]))
+            # a text result that looks like a formula, and one that looks like an error value: both must be written as text
+            wb.cells[free[2]] = ('f', ('bin', '&', ('lit', rnd.choice(['=', '=1+', '#N/A', '+', '=SUM(A1)'])), ('lit', rnd.choice(['1+2', 'A1', '', '2']))))
             dd = os.path.join(tmp, 'w%d' % k)
             os.makedirs(dd)
             os.chdir(dd)
@@ -75,7 +77,7 @@ def check(run):
                 if rnd.random() < 0.5:
                     consts = [a for a, c in wb.cells.items() if c[0] == 'v']
                     for a in rnd.sample(consts, min(2, len(consts))):
-                        ov[wb.key(*a).replace(wb.sheets[0][0], fname)] = bookrun.to_impl_value(bookgen.gen_value(rnd, 'nnnt'))
+                        ov[wb.key(*a).replace(wb.sheets[0][0], fname)] = bookrun.to_impl_value(bookgen.gen_value(rnd, 'nnnt')) if rnd.random() < 0.8 else rnd.choice(['=A1', '=1+2'])
                 sol = m.calculate(inputs=ov) if ov else m.calculate()
             except Exception as ex:
                 run.violation('loading/calculating raised %s: %s' % (type(ex).__name__, str(ex)[:100]), case)
@@ -115,6 +117,10 @@ def check(run):
                     ws = sheets.get(wb.sheets[s][1].upper())
                     got = ws.cell(row=r, column=c).value if ws is not None else 'no-sheet'
                     exp = expected_cell(w)
+                    if isinstance(exp, str) and not w.startswith('x') and ws is not None and ws.cell(row=r, column=c).data_type in ('f', 'e'):
+                        run.violation('written cell %s holds the text %r as %s, not as text' % (
+                            wb.key(s, r, c), exp, {'f': 'a formula', 'e': 'an error value'}[ws.cell(row=r, column=c).data_type]), dict(c2, cell=wb.key(s, r, c)))
+                        break
                     if not same(got, exp, disk=(target == 'disk')):
                         run.violation('written cell %s holds %r, the solution has %r' % (wb.key(s, r, c), got, exp), dict(c2, cell=wb.key(s, r, c)))
                         break
